@@ -12,7 +12,7 @@ import (
 	"github.com/metrico/qryn/reader/model"
 	"github.com/prometheus/prometheus/model/labels"
 	"github.com/prometheus/prometheus/storage"
-	"verif/harness/fakes"
+	fakes "verif/harness/fakes17"
 	"verif/harness/h"
 )
 
